@@ -69,6 +69,16 @@ M = [
                 ' should belong to this database'
             )""", """        else:
             pass""")]),
+    # re-creations of three sub-agent changes for C09 whose files were lost (descriptions kept in DESIGN.md)
+    ('c09-table-dict-cached-alias-not-invalidated', ['C09'], [
+        (R + 'database.py', "        result: Dict[str, 'Table'] = {}\n        for table in self.tables:", "        key = tuple((t.schema, t.name) for t in self.tables)\n        if getattr(self, '_td_key', None) == key:\n            return self._td\n        result: Dict[str, 'Table'] = {}\n        for table in self.tables:"),
+        (R + 'database.py', "                result[table.alias] = table\n        return result", "                result[table.alias] = table\n        self._td_key, self._td = key, result\n        return result")]),
+    ('c09-add-project-detaches-after-install', ['C09'], [
+        (R + 'database.py', "        if self.project:\n            self.delete_project()\n        self._set_database(obj)\n        self.project = obj\n        return obj",
+         "        old = self.project\n        self._set_database(obj)\n        self.project = obj\n        if old:\n            self._unset_database(old)\n        return obj")]),
+    ('c09-positional-delete-by-equality', ['C09'], [
+        (R + '_classes/table.py', "        elif isinstance(c, int):\n            self.columns[c].table = None\n            return self.columns.pop(c)", "        elif isinstance(c, int):\n            return self.delete_column(self.columns[c])"),
+        (R + '_classes/table.py', "        elif isinstance(i, int):\n            self.indexes[i].table = None\n            return self.indexes.pop(i)", "        elif isinstance(i, int):\n            return self.delete_index(self.indexes[i])")]),
     ('c10-sql-memoised', ['C10', 'C16'], [(R + '_classes/base.py', "        return renderer.render(self)\n\n    def __setattr__", "        if '_sql_cache' not in self.__dict__:\n            self.__dict__['_sql_cache'] = renderer.render(self)\n        return self.__dict__['_sql_cache']\n\n    def __setattr__")]),
     ('c10-enum-type-name-captured', ['C10'], [(R + 'parser/blueprints.py', "                    self.type = enum\n                    break", "                    self.type = enum if enum.schema == 'public' else f'\"{enum.schema}\".\"{enum.name}\"'\n                    break")]),
     ('c11-copy-removed-for-table', ['C11'], [(R + 'parser/parser.py', "table_with_properties.copy() if self._allow_properties else table.copy()", "table_with_properties.copy() if self._allow_properties else table")]),
